@@ -710,6 +710,33 @@ pub fn shared_cte_terms(small: bool) -> Vec<Rel> {
             }
         }
     }
+    // self-joins / self-unions of ONE sub-query that itself joins an aggregating sub-query with a base table (a
+    // sub-relation with several derivations of the same label, read twice)
+    if !small {
+        let base = base_tables();
+        let aggs: Vec<&Rel> = l1u.iter().filter(|r| starts_with_any(&r.term, &["A3(", "A4(", "A1("]) && (r.term.ends_with("(users)") || r.term.ends_with("(orders)"))).collect();
+        for a in aggs {
+            for t in base.iter().filter(|t| matches!(t.table, Some("users") | Some("orders"))) {
+                for j in binary(a, t, false).into_iter().chain(binary(t, a, false)).filter(|j| starts_with_any(&j.term, &["J.inner.eq.s1(", "J.cross.eq.s1(", "J.left.eq.s1("])) {
+                    let p0 = pseudo("c0", &j.cols, &j.tables, format!("c0:{}", j.term));
+                    let with = format!("WITH c0 AS ({}) ", j.sql);
+                    let mut bodies: Vec<Rel> = binary(&p0, &p0, false).into_iter().filter(|b| starts_with_any(&b.term, &["J.inner.eq.s1(", "J.inner.eq.s2(", "J.cross.eq.s1(", "J.inner.eq.s3("])).collect();
+                    let names = j.cols.iter().map(|c| c.name.clone()).collect::<Vec<_>>().join(", ");
+                    let mut u = p0.clone();
+                    u.term = format!("S.unionall(c0:{}, c0:{})", j.term, j.term);
+                    u.sql = format!("SELECT {names} FROM c0 UNION ALL SELECT {names} FROM c0");
+                    u.tags = vec!["setop", "unionall"];
+                    bodies.push(u);
+                    for b in bodies {
+                        let mut tags = b.tags.clone();
+                        tags.push("shared-cte");
+                        tags.push("self-join-of-a-join");
+                        out.push(Rel { term: format!("W[{}]", b.term), sql: format!("{with}{}", b.sql), table: None, cols: b.cols.clone(), tables: j.tables.clone(), depth: 3, subqueries: vec![j.sql.clone()], total_order: true, limit: false, tags });
+                    }
+                }
+            }
+        }
+    }
     out
 }
 
